@@ -1382,6 +1382,10 @@ fn op_name(op: &TextSelectionOperator) -> String {
     s
 }
 
+pub fn op_key_pub(op: &TextSelectionOperator) -> String {
+    op_key(op)
+}
+
 fn op_key(op: &TextSelectionOperator) -> String {
     // stable key without instance data: operator name + which modifiers are set
     let (name, all, negate, extra) = match op {
